@@ -360,8 +360,9 @@ struct Minimiser {
           const std::string& s = cur[i].s[a];
           std::vector<std::string> cands;
           cands.push_back("");
-          cands.push_back(s.substr(0, s.size() / 2));
-          cands.push_back(s.substr(s.size() / 2));
+          size_t half = s.size() / 2; while (half > 0 && half < s.size() && (static_cast<unsigned char>(s[half]) & 0xC0) == 0x80) --half;   // cut at a code point boundary
+          cands.push_back(s.substr(0, half));
+          cands.push_back(s.substr(half));
           for (const auto& cs : cands) {
             if (cs.size() >= s.size()) continue;
             auto t = cur; t[i].s[a] = cs;
